@@ -1734,6 +1734,21 @@ func (a *Authenticator) negotiateSecurity(negotiation *SecurityNegotiation) erro
 		return fmt.Errorf("encryption incompatibility: client requires encryption but server has it set to never")
 	}
 
+	// Integrity is reconciled like encryption (as HTCondor's SecMan does). On a cedar
+	// session it is provided by the AES-GCM cipher, so REQUIRED integrity needs a
+	// mutually supported cipher exactly as REQUIRED encryption does. Deciding this
+	// here lets the server answer with a graceful denial; otherwise the requiring
+	// endpoint only notices at the end of the handshake (plaintextOutcome) and the
+	// peer sees a bare close, or even completes its own side of the handshake.
+	serverIntegrity := negotiation.ServerConfig.Integrity
+	clientIntegrity := negotiation.ClientConfig.Integrity
+	if serverIntegrity == SecurityRequired && clientIntegrity == SecurityNever {
+		return fmt.Errorf("integrity incompatibility: server requires integrity but client has it set to never")
+	}
+	if serverIntegrity == SecurityNever && clientIntegrity == SecurityRequired {
+		return fmt.Errorf("integrity incompatibility: client requires integrity but server has it set to never")
+	}
+
 	// Determine if encryption should be performed based on combined settings
 	shouldEncrypt := false
 	switch {
@@ -1765,6 +1780,12 @@ func (a *Authenticator) negotiateSecurity(negotiation *SecurityNegotiation) erro
 	// If encryption is required but no compatible method was found, return error
 	if shouldEncrypt && negotiation.NegotiatedCrypto == "" {
 		return fmt.Errorf("encryption required but no compatible encryption methods found between client (%v) and server (%v)",
+			negotiation.ClientConfig.CryptoMethods, negotiation.ServerConfig.CryptoMethods)
+	}
+
+	// Likewise for required integrity (AES-GCM provides it)
+	if (serverIntegrity == SecurityRequired || clientIntegrity == SecurityRequired) && negotiation.NegotiatedCrypto == "" {
+		return fmt.Errorf("integrity required but no compatible encryption methods found between client (%v) and server (%v)",
 			negotiation.ClientConfig.CryptoMethods, negotiation.ServerConfig.CryptoMethods)
 	}
 
